@@ -9,13 +9,12 @@ inductive Err where
 deriving Repr, DecidableEq, Inhabited
 
 /-- index of the first minimum of `f` over the list (`get_pending_timer`: stable sort, element 0) -/
-def argminAux (f : α → Int) : List α → Nat → Nat → Int → Nat
-  | [], _, best, _ => best
-  | x :: xs, i, best, bv => if f x < bv then argminAux f xs (i+1) i (f x) else argminAux f xs (i+1) best bv
-
 def argmin (f : α → Int) : List α → Nat
   | [] => 0
-  | x :: xs => argminAux f xs 1 0 (f x)
+  | x :: xs =>
+      match xs[argmin f xs]? with
+      | some y => if f y < f x then argmin f xs + 1 else 0
+      | none => 0
 
 structure Job where
   timers : List Timer
